@@ -319,7 +319,7 @@ def run(run, tier, seed, replay=None):
     report(run, "small", bad, designs, outs)
 
     # 3. structured random hierarchies, about a third with an adversarial rename
-    n = 260 if quick else 7000
+    n = 260 if quick else 5000
     designs = []
     for k in range(n):
         r = core.rng(seed, "C16", "hier", k)
@@ -342,7 +342,7 @@ def run(run, tier, seed, replay=None):
 
     # 4. malformed / unsupported: slices and concatenations below and at the top, and the general design language
     #    (port references, no-connects, arrays): flatten must reject or flatten correctly, never wrongly
-    n = 60 if quick else 1500
+    n = 60 if quick else 1000
     designs = []
     for k in range(n):
         r = core.rng(seed, "C16", "unsup", k)
